@@ -1,42 +1,69 @@
 ----------------------------- MODULE ClientGen -----------------------------
 (* Generator for Client: one line per transition of the bounded graph, with *)
-(* the observation the transcript implies after every step.                 *)
+(* the observation the transcript implies after every step.  The first     *)
+(* record of a behaviour is the greeting.  With SimDepth > 0 (simulation    *)
+(* mode, long random behaviours of a larger instance) a line is printed     *)
+(* only for complete behaviours.                                            *)
 EXTENDS Client, Json
 
+CONSTANT SimDepth   \* 0: print every transition (exhaustive mode)
+
 VARIABLE hist
+
+\* no NOOP round trip is possible while an IDLE occupies the connection
+NoBarrier == \E i \in PendingOf("IDLE") : cmds[i].ph # "stopping"
 
 Obs == [cstate |-> cstate,
         cmpmbox |-> ~SelPending,           \* the mailbox summary is compared only when no SELECT is in progress
         mbox   |-> mbox,
         alive  |-> alive,
-        comp   |-> {[id |-> i, st |-> cmds[i].st, kind |-> cmds[i].kind, arg |-> cmds[i].arg, acc |-> cmds[i].acc] : i \in comp},
+        comp   |-> {[id |-> i, st |-> cmds[i].st, kind |-> cmds[i].kind, arg |-> cmds[i].arg,
+                     acc |-> [num |-> cmds[i].acc.num, flags |-> cmds[i].acc.flags, perm |-> cmds[i].acc.perm,
+                              uidnext |-> cmds[i].acc.uidnext, uidval |-> cmds[i].acc.uidval, list |-> cmds[i].acc.list,
+                              items |-> cmds[i].acc.items]] : i \in comp},
         pend   |-> PendingIds,
-        uni    |-> uni]
+        uni    |-> uni,
+        nobarrier |-> NoBarrier]
 
 Log(act, s1, s2, n1, n2) ==
   hist' = Append(hist, [act |-> act, s1 |-> s1, s2 |-> s2, n1 |-> n1, n2 |-> n2, exp |-> Obs'])
 
-GenInit == Init /\ hist = <<>>
+GenInit == Init /\ hist = <<[act |-> "Greet", s1 |-> greet, s2 |-> None, n1 |-> 0, n2 |-> 0, exp |-> Obs]>>
 
 GenStep ==
-  \/ \E k \in Kinds, a \in Mailboxes \cup {None} : Submit(k, a) /\ Log("Submit", k, a, 0, 0)
+  \/ \E k \in Kinds : \E a \in ArgsOf(k) : Submit(k, a) /\ Log("Submit", k, a, 0, 0)
+  \/ \E i \in 1..MaxCmds : IdleDone(i) /\ Log("IdleDone", None, None, i, 0)
+  \/ \E i \in 1..MaxCmds : Cont(i) /\ Log("Cont", None, None, i, 0)
   \/ \E n \in 0..MaxNum : Exists(n) /\ Log("Exists", None, None, n, 0)
   \/ \E n \in 0..MaxNum : Expunge(n) /\ Log("Expunge", None, None, n, 0)
   \/ \E n \in 0..MaxNum : Search(n) /\ Log("Search", None, None, n, 0)
+  \/ \E n \in 0..MaxNum : Sort(n) /\ Log("Sort", None, None, n, 0)
+  \/ \E n \in 0..MaxNum : Thread(n) /\ Log("Thread", None, None, n, 0)
+  \/ \E n \in 0..MaxNum : MoveUid(n) /\ Log("MoveUid", None, None, n, 0)
+  \/ \E n \in 0..MaxNum : UidNext(n) /\ Log("UidNext", None, None, n, 0)
+  \/ \E n \in 0..MaxNum : UidValidity(n) /\ Log("UidValidity", None, None, n, 0)
   \/ \E f \in FlagSets : Flags(f) /\ Log("Flags", f, None, 0, 0)
   \/ \E f \in FlagSets : PermFlags(f) /\ Log("PermFlags", f, None, 0, 0)
-  \/ \E n \in 1..MaxNum, f \in FlagSets : Fetch(n, f) /\ Log("Fetch", f, None, n, 0)
+  \/ \E n \in 1..MaxNum, f \in FlagSets, u \in 0..MaxNum : Fetch(n, f, u) /\ Log("Fetch", f, None, n, u)
   \/ \E m \in Mailboxes, n \in 0..MaxNum : Status(m, n) /\ Log("Status", m, None, n, 0)
+  \/ \E m \in Mailboxes, n \in 0..MaxNum : Quota(m, n) /\ Log("Quota", m, None, n, 0)
+  \/ \E m \in Mailboxes, n \in 0..MaxNum : Metadata(m, n) /\ Log("Metadata", m, None, n, 0)
   \/ \E m \in Mailboxes : List(m) /\ Log("List", m, None, 0, 0)
+  \/ \E m \in Mailboxes : MetaChanged(m) /\ Log("MetaChanged", m, None, 0, 0)
+  \/ \E m \in Mailboxes, r \in Mailboxes : QuotaRoot(m, r) /\ Log("QuotaRoot", m, r, 0, 0)
+  \/ \E c \in CapSets : Caps(c) /\ Log("Caps", c, None, 0, 0)
+  \/ \E p \in Prefixes : Namespace(p) /\ Log("Namespace", p, None, 0, 0)
+  \/ Enabled /\ Log("Enabled", None, None, 0, 0)
   \/ \E i \in 1..MaxCmds, n \in 1..MaxNum : Esearch(i, n) /\ Log("Esearch", None, None, n, i)
   \/ Closed /\ Log("Closed", None, None, 0, 0)
-  \/ \E i \in 1..MaxCmds, st \in {"OK", "NO", "BAD"} : Tagged(i, st) /\ Log("Tagged", st, None, i, 0)
+  \/ \E i \in 1..MaxCmds, st \in {"OK", "NO", "BAD"}, code \in 0..MaxNum : Tagged(i, st, code) /\ Log("Tagged", st, None, i, code)
   \/ Bye /\ Log("Bye", None, None, 0, 0)
 
-GenNext == GenStep /\ PrintT(<<"T", ToJson(hist')>>)
+Complete == ~alive' \/ Len(hist') >= SimDepth \/ (Len(cmds') = MaxCmds /\ PendingIds' = {} /\ cstate' # "selected")
+GenNext == GenStep /\ ((SimDepth = 0 \/ Complete) => PrintT(<<"T", ToJson(hist')>>))
 
 \* completed commands are history: their status and data are not part of the view, but WHICH positions of the
 \* submission order are still pending is (the client keeps its pending commands in a list)
-GenView == <<cstate, mbox, alive,
-             [i \in 1..Len(cmds) |-> IF cmds[i].st = "pending" THEN <<cmds[i].kind, cmds[i].arg, cmds[i].acc>> ELSE <<"done">>]>>
+GenView == <<greet, cstate, mbox, alive,
+             [i \in 1..Len(cmds) |-> IF cmds[i].st = "pending" THEN <<cmds[i].kind, cmds[i].arg, cmds[i].ph, cmds[i].acc>> ELSE <<"done">>]>>
 =============================================================================
